@@ -75,6 +75,10 @@ int main()
       vos.push_back(i % 2 ? std::optional<std::string>{S[i % S.size()]} : std::nullopt); vps.push_back({S[i % S.size()], i});
     }
     { static char const* lits[5] = {"", "a", "hello", "{}", "0123456789"}; std::vector<char const*> vc; for (int i = 0; i < n; ++i) vc.push_back(lits[i % 5]); round_trip("vector<char const*>", mk<std::vector<char const*>>(vc)); }
+    { std::set<int, std::greater<int>> sg; std::multiset<int, std::greater<int>> msg; std::map<int, std::string, std::greater<int>> mg;       // user-chosen ordering: the backend must print the same order
+      for (int i = 0; i < n; ++i) { sg.insert(100 + i); msg.insert(100 + i / 2); mg[100 + i] = S[i % S.size()]; }
+      round_trip("set<int,greater>", mk<std::set<int, std::greater<int>>>(sg)); round_trip("multiset<int,greater>", mk<std::multiset<int, std::greater<int>>>(msg));
+      round_trip("map<int,string,greater>", mk<std::map<int, std::string, std::greater<int>>>(mg)); }
     round_trip("vector<int>", mk<std::vector<int>>(vi)); round_trip("vector<string>", mk<std::vector<std::string>>(vs)); round_trip("deque<string>", mk<std::deque<std::string>>(ds));
     round_trip("list<double>", mk<std::list<double>>(ld)); round_trip("forward_list<string>", mk<std::forward_list<std::string>>(fs)); round_trip("set<string>", mk<std::set<std::string>>(ss));
     round_trip("map<string,int>", mk<std::map<std::string, int>>(msi)); round_trip("map<int,string>", mk<std::map<int, std::string>>(mis));
